@@ -601,7 +601,7 @@ fn check(args: &[String]) -> i32 {
             "F4 spurious park return (separate unregistered configuration only)": g("spurious_wakes_fired"),
             "F5 restart while previous parser parked": g("restart_while_parked"),
             "F5 restart while previous parser running": g("restart_while_running"),
-            "F5 restart while previous parser blocked in send": g("restart_while_in_send"),
+            
             "F5 restart after previous parser finished": g("restart_after_finish"),
             "F6 continue with no breakpoint pending": g("cont_with_no_breakpoint_pending"),
             "F6 coalesced continue tokens": g("coalesced_unpark_tokens"),
